@@ -178,6 +178,25 @@ class Ctx(object):
                 self.notes.setdefault(k, v)
 
 
+def guarded(ctx, fam, case):
+    """Run one oracle.  An exception that comes out of a call INTO the subject package (the first frame below the last
+    harness frame is a pgradd one) where the oracle expected the call to return is a finding about the subject - every
+    oracle catches the exceptions its property allows - and is bucketed as such; anything else is a harness error."""
+    try:
+        fam.check(ctx, case)
+    except Exception as e:
+        tb = traceback.extract_tb(e.__traceback__)
+        last_h = max([i for i, fr in enumerate(tb) if fr.filename.startswith(HERE + os.sep)] or [-1])
+        below = tb[last_h + 1:]
+        if last_h < 0 or not below or (os.sep + 'pgradd' + os.sep) not in below[0].filename:
+            raise
+        inner = [fr for fr in below if (os.sep + 'pgradd' + os.sep) in fr.filename][-1]
+        ctx.fail('subject-raised:%s:%s:%s' % (type(e).__name__, os.path.basename(inner.filename), inner.name),
+                 'a call the oracle of family %s expected to return raised %s: %s (at %s:%d %s; called from %s:%d)'
+                 % (fam.name, type(e).__name__, str(e)[:200], inner.filename.split(os.sep + 'pgradd' + os.sep)[-1], inner.lineno,
+                    inner.name, os.path.basename(tb[last_h].filename), tb[last_h].lineno))
+
+
 def run_family(ctx, fam, share):
     """Run one family inside one shard.  share = (index, nshards)."""
     idx, nsh = share
@@ -197,7 +216,7 @@ def run_family(ctx, fam, share):
                 continue
             if k % nsh == idx:
                 ctx.begin(fam.name, case)
-                fam.check(ctx, case)
+                guarded(ctx, fam, case)
             k += 1
         ctx.notes.setdefault('exhaustive:%s' % fam.name, stride == 1)
     if fam.strategy is not None:
@@ -228,7 +247,7 @@ def hyp_run(ctx, fam, n):
     def body(case):
         ctx.begin(fam.name, case)
         try:
-            fam.check(ctx, case)
+            guarded(ctx, fam, case)
         except BaseException:
             # keep the real traceback: Hypothesis may replace it by a FlakyFailure wrapper
             sys.stderr.write('HARNESS-EXCEPTION in %s case %r:\n%s\n' % (fam.name, case, traceback.format_exc()))
@@ -341,7 +360,7 @@ def run_regress(mod, ctx, only=None):
             fam.setup(ctx)
             done.add(fam.name)
         ctx.begin(fam.name, r['case'])
-        fam.check(ctx, r['case'])
+        guarded(ctx, fam, r['case'])
         ctx.event('regress:replayed')
 
 
@@ -461,7 +480,7 @@ def replay(modname, path):
     if fam.setup is not None:
         fam.setup(ctx)
     ctx.begin(fam.name, r['case'])
-    fam.check(ctx, r['case'])
+    guarded(ctx, fam, r['case'])
     known = load_known()
     rc = 0
     for bucket, f in sorted(ctx.failures.items()):
